@@ -14,7 +14,7 @@ from props import c04, c05, c14
 
 ID = "C18"
 LEVEL = "exploration"
-BUDGET = {"quick": (8, 35), "thorough": (16, 600)}
+BUDGET = {"quick": (8, 35), "thorough": (16, 800)}
 K = 2
 RULE = ("Generated all-feature OCP (every sampling method and grid, free/parametric horizon, parameters and variables of every kind, optional DAE, scales, objective terms, constraints, guesses, "
         "optional second stage) saved with ocp.save before the first transcription, after a query, or after a limited solve, then loaded with Ocp.load. Oracles: loaded and original NLP have equal "
